@@ -114,110 +114,16 @@ def tile(layout):
 
 
 def layout_rule(ctx, rule):
+    """Writer layout vs reader slices of the fixed-width codecs, decided by
+    interpreting the codecs on position-marker texts (sa.codecmodel); shared
+    by C01, C02 and C03."""
+    from .. import codecmodel
     m = ctx.model
-    lens = dispatch_lengths(ctx)
-    for cname, nfields, want_total, ctor in (("vDate", 3, rfc.LEN_DATE, "date"),
-                                             ("vDatetime", 6, rfc.LEN_DATETIME[0], "datetime"),
-                                             ("vTime", 3, rfc.LEN_TIME[0], "time")):
-        ci = m.cls(f"prop.{cname}")
-        to_i, fr_i = ci.methods.get("to_ical"), ci.methods.get("from_ical")
-        if to_i is None or fr_i is None:
-            raise AnalysisError(f"anchor vanished: {cname}.to_ical/from_ical")
-        we = find_writer_expr(to_i)
-        lay = writer_layout_from_expr(we) if we is not None else None
-        if lay is None:
-            raise AnalysisError(f"{cname}.to_ical: no f-string/strftime layout found")
-        tiles, total = tile(lay)
-        wfields = [t for t in tiles if not t[0].startswith("lit:")]
-        loose = [t for t in wfields if t[2] is None]
-        ctx.check(not loose, rule, f"{cname} writer fields fixed-width",
-                  f"{cname}.to_ical renders `{loose[0][0] if loose else ''}` "
-                  f"without a fixed zero-padded width (e.g. strftime %Y pads "
-                  f"years < 1000 differently per platform): the text can be "
-                  f"shorter than the reader's slices", to_i.loc(we),
-                  witness="year 0601 -> '6010101T000000'", detail=str(lay))
-        if loose:
-            continue
-        exp_names = FIELDS[:3] if cname == "vDate" else FIELDS if cname == "vDatetime" else FIELDS[3:]
-        ctx.check([t[0] for t in wfields] == exp_names, rule,
-                  f"{cname} writer field order",
-                  f"{cname}.to_ical writes fields {[t[0] for t in wfields]}, "
-                  f"expected {exp_names}", to_i.loc(we), detail=str(exp_names))
-        rs = reader_slices(fr_i, fr_i.params[-1] if fr_i.kind != "static" and False else
-                           (fr_i.params[0] if fr_i.kind == "static" else fr_i.params[1]))
-        wsl = [(t[1], t[2]) for t in wfields]
-        ctx.check(rs == wsl, rule, f"{cname} slices match fields",
-                  f"{cname}.from_ical reads {rs} but to_ical writes the fields at "
-                  f"{wsl}", fr_i.loc(), detail=f"{wsl}")
-        # the reader feeds the slices to the constructor in field order
-        star = [c for c in ast.walk(fr_i.node) if isinstance(c, ast.Call)
-                and isinstance(c.func, ast.Name) and c.func.id == ctor
-                and any(isinstance(a, ast.Starred) for a in c.args)]
-        ctx.check(bool(star), rule, f"{cname} constructor order",
-                  f"{cname}.from_ical must build {ctor}(*fields) in slice order",
-                  fr_i.loc(), detail=f"{ctor}(*timetuple)")
-        ctx.check(total == want_total, rule, f"{cname} text length",
-                  f"{cname}.to_ical emits {total} characters; RFC form has {want_total}",
-                  to_i.loc(we), detail=str(total))
-        key = {"vDate": "vDate", "vDatetime": "vDatetime", "vTime": "vTime"}[cname]
-        got = lens.get(key, set())
-        extra = {total, total + 1} if cname in ("vDatetime", "vTime") else {total}
-        ctx.check(total in got and got <= extra, rule, f"{cname} length dispatched",
-                  f"vDDDTypes.from_ical sends lengths {sorted(got)} to {cname}; "
-                  f"the writer emits {sorted(extra)}", None, detail=str(sorted(got)))
-    # DATE-TIME: 'T' separator and the UTC designator
-    ci = m.cls("prop.vDatetime")
-    to_i, fr_i = ci.methods["to_ical"], ci.methods["from_ical"]
-    lay = writer_layout_from_expr(find_writer_expr(to_i))
-    tiles, total = tile(lay)
-    lits = [t for t in tiles if t[0].startswith("lit:")]
-    if total is None:
-        total = rfc.LEN_DATETIME[0]      # reported above as not fixed-width
-        lits = [("lit:T", 8, 9)] if any(t[0] == "lit:T" for t in tiles) else lits
-    ctx.check(lits == [("lit:T", 8, 9)], rule, "vDatetime 'T' separator",
-              f"literal parts of the DATE-TIME text are {lits}, expected 'T' at 8",
-              to_i.loc(), detail="T at [8:9]")
-    zs = [n for n in ast.walk(to_i.node) if isinstance(n, ast.AugAssign)
-          and isinstance(n.value, ast.Constant) and n.value.value == "Z"]
-    ztest = [n for n in ast.walk(fr_i.node) if isinstance(n, ast.Compare)
-             and isinstance(n.left, ast.Subscript) and isinstance(n.comparators[0], ast.Constant)
-             and n.comparators[0].value == "Z"]
-    zslice = None
-    if ztest:
-        s = ztest[0].left.slice
-        if isinstance(s, ast.Slice) and isinstance(s.lower, ast.Constant):
-            zslice = (s.lower.value, s.upper.value if isinstance(s.upper, ast.Constant) else None)
-    ctx.check(len(zs) == 1 and zslice == (total, total + 1), rule,
-              "vDatetime UTC designator position",
-              f"writer appends 'Z' after {total} characters; reader tests it at "
-              f"{zslice}", fr_i.loc(), detail=f"ical[{total}:{total + 1}] == 'Z'")
-    # UTC-OFFSET
-    uo = m.cls("prop.vUTCOffset")
-    to_i, fr_i = uo.methods.get("to_ical"), uo.methods.get("from_ical")
-    if to_i is None or fr_i is None:
-        raise AnalysisError("anchor vanished: vUTCOffset.to_ical/from_ical")
-    specs = {id(v.format_spec) for v in ast.walk(to_i.node)
-             if isinstance(v, ast.FormattedValue) and v.format_spec is not None}
-    fs = [n for n in ast.walk(to_i.node) if isinstance(n, ast.JoinedStr)
-          and id(n) not in specs]
-    lays = sorted((writer_layout_from_expr(n) for n in fs), key=len)
-    signs = sorted({n.value for n in ast.walk(to_i.node) if isinstance(n, ast.Constant)
-                    and isinstance(n.value, str) and n.value.endswith("%s")})
-    ok_w = (len(lays) == 2 and [x[1:] for x in lays[0]] == [("hours", 2), ("minutes", 2)]
-            and [x[1:] for x in lays[1]] == [("hours", 2), ("minutes", 2), ("seconds", 2)]
-            and signs == ["+%s", "-%s"])
-    ctx.check(ok_w, rule, "vUTCOffset writer layout",
-              f"UTC-OFFSET text must be sign + HH + MM [+ SS], two digits each; "
-              f"found {lays} with signs {signs}", to_i.loc(), detail="±HHMM[SS]")
-    rs = reader_slices(fr_i, fr_i.params[1])
-    sign_sl = [n for n in ast.walk(fr_i.node) if isinstance(n, ast.Subscript)
-               and isinstance(n.slice, ast.Slice) and isinstance(n.value, ast.Name)
-               and n.value.id == fr_i.params[1] and isinstance(n.slice.lower, ast.Constant)
-               and n.slice.lower.value == 0]
-    ctx.check(rs == [(1, 3), (3, 5), (5, 7)] and bool(sign_sl), rule,
-              "vUTCOffset reader slices",
-              f"UTC-OFFSET reader slices {rs} must be sign [0:1], HH [1:3], MM [3:5], SS [5:7]",
-              fr_i.loc(), detail="[0:1] [1:3] [3:5] [5:7]")
+    codecmodel.report(ctx, rule, codecmodel.explore_datetime, codecmodel.DT_LAWS,
+                      m.cls("prop.vDatetime").loc(), 15)
+    codecmodel.report(ctx, rule, codecmodel.explore_utcoffset,
+                      ["UTC-OFFSET " + x for x in codecmodel.UTC_LAWS],
+                      m.cls("prop.vUTCOffset").loc(), 300)
 
 
 # ---------------------------------------------------------------------------
@@ -416,11 +322,12 @@ def _duration_units(ctx, dur, vd):
 def run(ctx):
     m = ctx.model
     ctx.explanation = (
-        "field tiling of the fixed-width writers (f-string / strftime specs) "
-        "vs the reader's slices; regex inclusion L(RFC dur-value) ⊆ "
-        "L(DURATION_REGEX) and L(RFC weekdaynum) ⊆ L(WEEKDAY_RULE); abstract "
-        "evaluation of the vDDDTypes.from_ical test chain over text shapes "
-        "(prefix, '/', length); handler discipline of every codec's from_ical.")
+        "interpretation (E7, sa.codecmodel) of the DATE/DATE-TIME/TIME codecs on "
+        "position-marker texts (writer layout = reader slices = RFC shape), of "
+        "UTC-OFFSET and DURATION on a bounded value domain against the RFC reading, "
+        "and of the combined decoder on one text of every RFC form; regex inclusion "
+        "L(RFC dur-value) ⊆ L(DURATION_REGEX) and L(RFC weekdaynum) ⊆ L(WEEKDAY_RULE) "
+        "(E5); handler discipline of every codec's from_ical (E3).")
     layout_rule(ctx, "C03/LAYOUT")
 
     # ---- GRAMMAR-IN --------------------------------------------------------
@@ -434,14 +341,10 @@ def run(ctx):
     ctx.check(ngroups == 6, "C03/GRAMMAR-IN", "DURATION_REGEX groups",
               f"DURATION_REGEX has {ngroups} groups; vDuration.from_ical unpacks "
               f"sign, weeks, days, hours, minutes, seconds", None, detail="6 groups")
-    # the decoder must use match() (anchored at the start) - a search would accept garbage
+    from .. import codecmodel
     vd = m.own_method("prop.vDuration.from_ical")
-    uses = [c.func.attr for c in ast.walk(vd.node) if isinstance(c, ast.Call)
-            and isinstance(c.func, ast.Attribute) and isinstance(c.func.value, ast.Name)
-            and c.func.value.id == "DURATION_REGEX"]
-    ctx.check(uses in (["match"], ["fullmatch"]), "C03/GRAMMAR-IN", "duration decoder anchored",
-              f"vDuration.from_ical uses DURATION_REGEX.{uses}", vd.loc(), detail=str(uses))
-    _duration_units(ctx, dur, vd)
+    codecmodel.report(ctx, "C03/DUR-UNITS", codecmodel.explore_duration, codecmodel.DUR_LAWS,
+                      vd.loc(), 150)
     wr = rx.repo_rx(m, "prop", "WEEKDAY_RULE")
     spec = rx.Rx(rfc.RFC_WEEKDAYNUM, 0, "RFC weekdaynum")
     ok, wit, n = rx.included(rx.Lang(spec, "full"), rx.Lang(wr, "match"))
@@ -470,49 +373,9 @@ def run(ctx):
     ctx.check(consts == [b"FALSE", b"TRUE"], "C03/GRAMMAR-IN", "boolean writer",
               f"vBoolean.to_ical emits {consts}", tb.loc(), detail="b'TRUE'/b'FALSE'")
 
-    # ---- DISPATCH ----------------------------------------------------------
-    f, table = dispatch_table(ctx)
-    ctx.extra["dispatch_chain"] = [(d, tgt) for d, p, tgt, st in table]
-    ncase = 0
-    for typ, decoder, prefix, slash, lengths in RFC_SHAPES:
-        for ln in lengths:
-            shape = {"prefix": prefix, "slash": slash, "len": ln}
-            got = None
-            for d, p, tgt, st in table:
-                if p(shape):
-                    got = (tgt, d, st)
-                    break
-            ncase += 1
-            ctx.check(got is not None and got[0] == decoder, "C03/DISPATCH",
-                      f"{typ} prefix={prefix} slash={slash} len={ln}",
-                      f"an RFC {typ} text (starts with {prefix}, "
-                      f"{'contains' if slash else 'no'} '/', length {ln}) is sent "
-                      f"to {got[0] if got else None} by test `{got[1] if got else ''}`, "
-                      f"expected {decoder}", f.loc(got[2]) if got else f.loc(),
-                      detail=f"-> {decoder}")
-    # the prefix test is made on an upper-cased copy (RFC: case-insensitive 'P'/'T')
-    up = any(isinstance(c, ast.Call) and isinstance(c.func, ast.Attribute)
-             and c.func.attr == "upper" for c in ast.walk(f.node))
-    ctx.check(up, "C03/DISPATCH", "prefix test case-insensitive",
-              "the duration prefix test must be made on ical.upper()", f.loc(),
-              detail="u = ical.upper()")
-    # vDDDLists.from_ical and vPeriod.from_ical delegate each part to vDDDTypes.from_ical
-    for cq, sep in (("prop.vDDDLists", ","), ("prop.vPeriod", "/")):
-        g = m.own_method(cq + ".from_ical")
-        dele = [c for c in ast.walk(g.node) if isinstance(c, ast.Call)
-                and isinstance(c.func, ast.Attribute) and c.func.attr == "from_ical"
-                and isinstance(c.func.value, ast.Name) and c.func.value.id == "vDDDTypes"]
-        sp = [c for c in ast.walk(g.node) if isinstance(c, ast.Call)
-              and isinstance(c.func, ast.Attribute) and c.func.attr == "split"
-              and c.args and isinstance(c.args[0], ast.Constant) and c.args[0].value == sep]
-        tz_fwd = all(any(k.arg == "timezone" for k in c.keywords) for c in dele)
-        ctx.check(bool(dele) and bool(sp) and tz_fwd, "C03/DISPATCH",
-                  f"{cq.split('.')[1]} delegates parts",
-                  f"{cq}.from_ical must split on {sep!r} and decode each part with "
-                  f"vDDDTypes.from_ical(part, timezone=timezone)", g.loc(),
-                  detail=f"split({sep!r}) -> vDDDTypes.from_ical(…, timezone=timezone)")
-    ctx.floor("C03/DISPATCH", 20)
-    ctx.floor("C03/LAYOUT", 16)
+    # ---- DISPATCH: the combined decoder on one text of every RFC form -----------
+    codecmodel.report(ctx, "C03/DISPATCH", codecmodel.explore_dispatch, codecmodel.DISPATCH_LAWS,
+                      m.own_method("prop.vDDDTypes.from_ical").loc(), 20)
 
     # ---- WRAP --------------------------------------------------------------
     try:
